@@ -12,11 +12,6 @@ verus! {
 //@include ../common/stdopt.rs
 //@include ../common/address.rs
 
-impl GuestAddress {
-    pub fn gt(&self, o: &GuestAddress) -> (r: bool) ensures r == (self.0 > o.0) { self.0 > o.0 }
-    pub fn ge(&self, o: &GuestAddress) -> (r: bool) ensures r == (self.0 >= o.0) { self.0 >= o.0 }
-    pub fn le(&self, o: &GuestAddress) -> (r: bool) ensures r == (self.0 <= o.0) { self.0 <= o.0 }
-}
 
 #[derive(Debug)]
 pub enum MmapRegionError { InvalidOffsetLength, MappingPastEof, SeekEnd(i32), SeekStart(i32) }
@@ -240,14 +235,12 @@ impl<B: Bitmap> GuestMemoryMmap<B> {
 //@fn src/mmap/mod.rs :: impl<B: Bitmap> GuestMemoryMmap<B> :: from_arc_regions :: tags=C10,C07
 //@sub result::Result<Self, Error> => core::result::Result<Self, Error>
 //@sub for window in regions\.windows\(2\) \{ => let mut it = regions.windows(2); while let Some(window) = it.next() {
-//@sub prev\.start_addr\(\) > next\.start_addr\(\) => prev.start_addr().gt(&next.start_addr())
-//@sub prev\.last_addr\(\) >= next\.start_addr\(\) => prev.last_addr().ge(&next.start_addr())
 //@spec
     requires all_wf(regions@),
     ensures
         regions@.len() == 0 ==> r matches Err(Error::NoMemoryRegion), // [C10]
         (r is Ok) == (regions@.len() > 0 && sorted_disjoint(regions@)), // [C10]
-        r matches Ok(m) ==> m.regions@ == regions@ && m.wf(), // [C10]
+        r matches Ok(m) ==> m.regions@ == regions@ && m.wf(), // [C10,C02]
         // the first offending adjacent pair decides which error is reported
         r matches Err(Error::UnsortedMemoryRegions) ==> exists|k: int| 0 <= k && k + 1 < regions@.len() && adjacent_ok(regions@, k) && regions@[k].s_start() > regions@[k + 1].s_start(), // [C10]
         r matches Err(Error::MemoryRegionOverlap) ==> exists|k: int| 0 <= k && k + 1 < regions@.len() && adjacent_ok(regions@, k) && regions@[k].s_start() <= regions@[k + 1].s_start() && regions@[k].s_last() >= regions@[k + 1].s_start(), // [C10]
@@ -276,7 +269,7 @@ impl<B: Bitmap> GuestMemoryMmap<B> {
             lemma_adjacent_to_pairwise(regions@);
         }
 //@end
-//@canary gt_not_ge :: prev\.last_addr\(\)\.ge\( => prev.last_addr().gt(
+//@canary gt_not_ge :: prev\.last_addr\(\) >= => prev.last_addr() >
 //@endfn
 
 //@fn src/mmap/mod.rs :: impl<B: Bitmap> GuestMemoryMmap<B> :: insert_region :: tags=C10,C07
@@ -287,7 +280,7 @@ impl<B: Bitmap> GuestMemoryMmap<B> {
     requires self.wf(), region.wf(),
     ensures
         // the new map is valid and holds exactly the old regions plus the new one
-        r matches Ok(m) ==> m.wf() && is_perm_of(m.regions@, self.regions@.push(region)), // [C10]
+        r matches Ok(m) ==> m.wf() && is_perm_of(m.regions@, self.regions@.push(region)), // [C10,C02]
         r is Err ==> r matches Err(Error::MemoryRegionOverlap), // [C10]
         // it succeeds whenever the new region collides with none of the old ones (so it fails only
         // if the region really overlaps, or duplicates the start of, an existing one)
@@ -315,7 +308,7 @@ impl<B: Bitmap> GuestMemoryMmap<B> {
         (r is Ok) == (exists|i: int| 0 <= i < self.regions@.len() && self.regions@[i].s_start() == base.0 && self.regions@[i].s_len() == size), // [C10]
         r matches Ok(pair) ==> (exists|i: int| 0 <= i < self.regions@.len() && self.regions@[i].s_start() == base.0 && self.regions@[i].s_len() == size
             && pair.1 == self.regions@[i] && pair.0.regions@ == self.regions@.remove(i))
-            && all_wf(pair.0.regions@) && sorted_disjoint(pair.0.regions@), // [C10]
+            && all_wf(pair.0.regions@) && sorted_disjoint(pair.0.regions@), // [C10,C02]
         r is Err ==> r matches Err(Error::InvalidGuestRegion), // [C10]
 //@end
 //@canary ignore_size :: as GuestUsize == size => as GuestUsize <= size
@@ -370,7 +363,6 @@ impl<B: Bitmap> GuestMemoryMmap<B> {
     }
 //@fn src/mmap/mod.rs :: impl<B: Bitmap \+ 'static> GuestMemory for GuestMemoryMmap<B> :: find_region :: tags=C02,C07
 //@sub self\.regions\.binary_search_by_key\(&addr, \|x\| x\.start_addr\(\)\) => bsearch_start(&self.regions, &addr)
-//@sub addr <= self\.regions\[x - 1\]\.last_addr\(\) => addr.le(&self.regions[x - 1].last_addr())
 //@sub \|x\| self\.regions\[x\]\.as_ref\(\) => |x: usize| -> (q: &GuestRegionMmap<B>) requires x < self.regions@.len() ensures *q == *self.regions@[x as int] { arc_ref(&self.regions[x]) }
 //@before 0 /-/
         proof { lemma_starts_strict(self.regions@); }
@@ -393,7 +385,7 @@ impl<B: Bitmap> GuestMemoryMmap<B> {
             }
         }
 //@end
-//@canary lt_last :: addr\.le\(&self\.regions\[x - 1\]\.last_addr\(\)\) => addr.0 < self.regions[x - 1].last_addr().0
+//@canary lt_last :: addr <= self\.regions\[x - 1\]\.last_addr\(\) => addr < self.regions[x - 1].last_addr()
 //@canary x_not_minus1 :: => Some\(x - 1\) => => Some(x)
 //@endfn
 }
